@@ -169,10 +169,14 @@ def r4_ordering(chk):
     chk.ob('C18.R4', 'genIndex/order-helper', ok, where(mod, fn), 'order() helper missing')
     if ok:
         txt = norm(order[0])
-        chk.ob('C18.R4', 'order/lists-sorted-set', 'for e in sorted(set(top))' in txt, where(mod, order[0]),
+        tp = order[0].args.args[0].arg
+        chk.ob('C18.R4', 'order/lists-sorted-set', common.pmatch(txt, 'for $e in sorted(set(%s))' % tp, full=False)
+               is not None, where(mod, order[0]),
                'lists must be emitted as sorted(set(list))')
-        chk.ob('C18.R4', 'order/dicts-sorted', 'sorted(top, key=lambda x: [int(y) for y in x.split' in txt and
-               'for k in sorted(top)' in txt, where(mod, order[0]), 'mapping keys must be sorted')
+        chk.ob('C18.R4', 'order/dicts-sorted', common.pmatch(
+            txt, 'sorted(%s, key=lambda $x: [int($y) for $y in $x.split' % tp, full=False) is not None and
+            common.pmatch(txt, 'for $k in sorted(%s)' % tp, full=False) is not None, where(mod, order[0]),
+            'mapping keys must be sorted')
         chk.ob('C18.R4', 'order/recursion', txt.count('order(') >= 3, where(mod, order[0]), '')
     rets = [x for x in walk_no_nested(fn) if isinstance(x, ast.Return)]
     ok = len(rets) == 1 and norm(rets[0].value).startswith('json.dumps(order(')
